@@ -14,6 +14,7 @@ import black_it.utils.base as ub
 from harness.common import Case, f, objarr
 from symx.core import UF_RND, Sym, SymFP, fp16_var
 from symx.npx import patched
+from symx.core import reraise_if_harness  # noqa: E402
 
 LEVEL = "other"
 FUNCTIONS = ["black_it.utils.base:get_closest", "black_it.utils.base:digitize_data"]
@@ -103,6 +104,7 @@ def case_single(n, rounded):
         try:
             out = ub.get_closest(g, np.array([v]))
         except Exception as e:  # noqa: BLE001
+            reraise_if_harness(e)
             return True, f"get_closest({g.tolist()}, [{v}]) raised {type(e).__name__}: {e}"
         bad, why = _judge(list(g), v, out[0])
         return bad, f"get_closest({g.tolist()}, [{v}]) -> {out.tolist()}: {why}"
@@ -132,6 +134,7 @@ def case_f16(n):
         try:
             out = ub.get_closest(g, np.array([v], dtype=np.float16))
         except Exception as e:  # noqa: BLE001
+            reraise_if_harness(e)
             return True, f"get_closest raised {type(e).__name__}: {e}"
         r = out[0]
         bad = not any(r == x for x in g) or any(abs(np.float16(v - x)) < abs(np.float16(v - r)) for x in g)
@@ -180,6 +183,7 @@ def case_digitize(shape, ns):
         try:
             out = ub.digitize_data(data, grids)
         except Exception as e:  # noqa: BLE001
+            reraise_if_harness(e)
             return True, f"digitize_data raised {type(e).__name__}: {e}"
         if out.shape != (R, C):
             return True, f"shape {out.shape}"
@@ -207,6 +211,7 @@ def case_dtypes():
             try:
                 out = ub.digitize_data(data, grids)
             except Exception as e:  # noqa: BLE001
+                reraise_if_harness(e)
                 msgs.append(f"{nm}: raised {type(e).__name__}: {e}")
                 continue
             if out.shape != data.shape:
